@@ -24,6 +24,7 @@ RULE = ("layer A (function level, bounded-exhaustive): Server.get_paths for ever
         "different base/home, re-login in mid-session: every path handed to the recording back end is inside the *current* "
         "user's base and PWD equals the model cwd.  distinct = distinct (path, cwd, base) triples / distinct wire "
         "transcripts; non-trivial = the path contains '..' or a metacharacter segment.")
+RULE += ("  " + 'Also: every back-end path of a command is the location it addressed (itself, its parent, below it; for RNTO the pending source too), also when the cwd changes between the mark and the data connection; every path handed to User.get_permissions is the normalised absolute form of that location.')
 ASSUMPTIONS = ["lexical confinement (symlinks are outside the statement)",
                "Windows flavour only through pathlib.PureWindowsPath at function level"]
 REQUIRED_MONITORS = ["get_paths_contract", "backend_path_inside_base", "pwd_vs_model"]
